@@ -207,7 +207,10 @@ class StmtMixin(CallMixin):
                 self.oblige(st, "safety:attrstore", U.is_("VExc", obj.t))
                 return [(NORMAL, None, st.set(name, T("V", U.con("VExc", U.acc("xcls", obj.t), self.box(val)))))]
             raise Unsupported(f"attribute store {ast.unparse(tgt)}")
-        return [(NORMAL, None, self.bind_target(tgt, val, st))]
+        st2 = self.bind_target(tgt, val, st)
+        if st.mode == "code" and isinstance(val, T) and val.kind == "V" and z3.is_app(val.t) and val.t.decl().kind() == z3.Z3_OP_SEQ_NTH:
+            st2 = self.learn(st2, self.val_terms(val))  # x = s[i]: quantified facts about the elements of s apply to x
+        return [(NORMAL, None, st2)]
 
     def st_Assign(self, node, st):
         def k(val, s):
